@@ -22,6 +22,7 @@ runs = [
     lambda: engine("once3", {"AckLate": False}, "Deadlock reached"),                       # F1
     lambda: engine("cap2", {"CapChan": 1}, "Deadlock reached"),                            # F2
     lambda: engine("watch2", {"StrictStart": True}, "Invariant NoStepViolation is violated"),  # F10 (open)
+    lambda: engine("once3", {"Unrequests": True}, "Deadlock reached"),   # not a defect of the code: the TODO "unrequest dependency services", explored
     lambda: engine("watch2", {"RecordBefore": False, "GuardNoInput": True, "Foreigns": True}, "Invariant UpToDate is violated"),   # F3 seen from the engine
     lambda: other("Incremental.tla", "inc", {"Paths": "{p1, p2}", "NT": 1, "MaxM": 1, "MaxC": 1, "MaxOps": 2, "MaxInv": 2, "RecordBefore": False, "GuardNoInput": True, "Foreigns": True},
                   ["SkipMeansUpToDate"], [], "Invariant SkipMeansUpToDate is violated"),   # F3
